@@ -21,25 +21,233 @@ RULE = ("cases: a real worker thread (sozu_lib::server::Server::run) driven over
         "cluster-hash comparison against the main process' ConfigState and a soft/hard stop. Non-trivial and distinct: >=10 "
         "requests over >=6 distinct verbs including at least one listener verb and one invalid or unknown-target request.")
 ASSUMPTIONS = [
-    "each proxy's notify returns exactly one WorkerResponse (its Rust return type); which status it returns is observed, not modelled",
+    "each proxy's notify returns exactly one WorkerResponse (its Rust return type); it is a final status (OK or failure) except for SoftStop/HardStop, where the proxies answer Processing — observed by the black-box run, an oracle in the model",
     "the worker handles its queue FIFO on one thread, so every response to request k precedes the answer to the Status barrier sent after it",
-    "the translator counts an arm of Server::notify as answering once when it contains push_queue and as leaving when it ends in return; two pushes on one path are caught by the black-box count only",
+    "view_tracks_master is relative to one abstract ConfigState::dispatch shared by main process and worker; the only fact used about it is that the variants of the generated list state_noop (arms `=> Ok(())` of ConfigState::dispatch) leave the state untouched",
+    "the session table is abstracted: 'only listen/system slots remain' is the event EDrained; the translator checks that shut_down_sessions tests against the slots counted from the slab",
 ]
-TRUSTED = ["translator props/c08.py:translate (arms of Server::notify and Server::notify_proxys, Request::get_destinations)"]
-LEVEL_TEXT = ("Machine-checked proof (Coq 8.16) that the arms table of Server::notify / notify_proxys / get_destinations — regenerated "
-              "from lib/src/server.rs and command/src/request.rs on every run — gives exactly one final answer for every RequestType "
-              "variant and for every request sequence; tied to the code by that translator and by a black-box correspondence run "
-              "(real worker thread, every variant x target/validity selector, Status barrier, response count per id), with the "
-              "property's oracle (one final answer, worker alive, cluster hashes equal to the main process' state) on the implementation.")
-LEVEL_NOTE = ("Partial: response counting is proved over the generated table; the status of each answer, the proxies' own notify and "
-              "the live routing/listening behaviour are observed by the black-box run only (view comparison = cluster hashes of "
-              "QueryClustersHashes vs ConfigState::hash_state of the same sequence). The translator approximates paths inside an arm "
-              "(presence of push_queue, trailing return). base_sessions_count after a bogus RemoveListener is an open observation, not checked.")
+TRUSTED = ["translator props/c08.py:translate: a control-flow path analysis (if / if let / match / let-else / return / closures passed to .with) of every arm of read_channel_messages_and_notify, Server::notify and the two matches of Server::notify_proxys, counting push_queue per path; Request::get_destinations; the no-op arms of ConfigState::dispatch"]
+LEVEL_TEXT = ("Machine-checked proof (Coq 8.16) over an executable model of the worker's command handling (read_channel_messages_and_notify "
+              "-> notify -> notify_proxys, stop handling, listener bookkeeping) that is generic in the configuration view, in "
+              "ConfigState::dispatch and in everything the proxies decide (an oracle per request), and driven by an arms table regenerated "
+              "from lib/src/server.rs, command/src/request.rs and command/src/state.rs on every run with push_queue counted per control-flow "
+              "path: exactly one final answer per request for every variant, state, oracle and sequence; the view is the fold of dispatch over "
+              "the served requests; answers independent of base_sessions_count. Tied to the code by that translator and by a black-box "
+              "correspondence run (real worker thread, every variant x target/validity selector, Status barrier, responses counted per id) with "
+              "the property's oracle (one final answer, worker alive, cluster hashes equal to the main process' state, stops complete).")
+LEVEL_NOTE = ("Partial: what is proved is the control flow around the proxies. The status of each answer, each proxy's own notify "
+              "(one response by its return type; Processing only for the stop verbs is an assumption checked by the black-box run) and the "
+              "live routing/listening behaviour are observed only: view comparison = cluster hashes of QueryClustersHashes vs "
+              "ConfigState::hash_state of the same sequence; no connect probes. ConfigState::dispatch itself is C05-C07's subject; here it is "
+              "an abstract function shared by both sides. Two SoftStop requests: the second overwrites shutting_down, the first never gets its "
+              "final answer (at most one final holds; seen in the model, not driven).")
 TECHNIQUE = "Rocq/Coq proof over a generated arms table + black-box differential run against a real worker thread"
 CLAIMED = True
 
 SERVER = "lib/src/server.rs"
 REQUEST = "command/src/request.rs"
+
+
+
+class PathError(Exception):
+    pass
+
+def strip_strings(src):
+    """remove comments, string and char literals (their contents may hold braces and keywords)"""
+    out, i, n = [], 0, len(src)
+    while i < n:
+        c = src[i]
+        if src.startswith("//", i):
+            j = src.find("\n", i)
+            i = n if j < 0 else j
+        elif src.startswith("/*", i):
+            j = src.find("*/", i)
+            i = n if j < 0 else j + 2
+        elif c == '"':
+            j = i + 1
+            while j < n and src[j] != '"':
+                j += 2 if src[j] == "\\" else 1
+            out.append('""')
+            i = j + 1
+        elif c == "'" and i + 2 < n and (src[i + 2] == "'" or (src[i + 1] == "\\" and i + 3 < n and src[i + 3] == "'")):
+            j = i + (3 if src[i + 2] == "'" else 4)
+            out.append("' '")
+            i = j
+        else:
+            out.append(c)
+            i += 1
+    return "".join(out)
+
+def match_close(s, i):
+    """s[i] is an opening bracket; index of its closing partner"""
+    op = s[i]
+    cl = {"{": "}", "(": ")", "[": "]"}[op]
+    d = 0
+    while i < len(s):
+        if s[i] == op:
+            d += 1
+        elif s[i] == cl:
+            d -= 1
+            if d == 0:
+                return i
+        i += 1
+    raise PathError("unbalanced %s" % op)
+
+def next_brace(s, i):
+    """first '{' at paren depth 0 at or after i"""
+    d = 0
+    while i < len(s):
+        c = s[i]
+        if c in "([":
+            d += 1
+        elif c in ")]":
+            d -= 1
+        elif c == "{" and d == 0:
+            return i
+        i += 1
+    raise PathError("no block found")
+
+def split_arms(body):
+    """bodies of the arms of a match block given WITHOUT its braces"""
+    arms, i, n, d = [], 0, len(body), 0
+    while i < n:
+        c = body[i]
+        if c in "({[":
+            i = match_close(body, i) + 1
+            continue
+        if body.startswith("=>", i):
+            j = i + 2
+            while j < n and body[j].isspace():
+                j += 1
+            if j < n and body[j] == "{":
+                k = match_close(body, j)
+                arms.append(body[j + 1:k])
+                i = k + 1
+            else:
+                k = j
+                while k < n and body[k] != ",":
+                    if body[k] in "({[":
+                        k = match_close(body, k)
+                    k += 1
+                arms.append(body[j:k])
+                i = k + 1
+            continue
+        i += 1
+    return arms
+
+WORD = re.compile(r"[A-Za-z_][A-Za-z_0-9]*")
+
+def seq(P, D, branches):
+    """run alternative branch summaries after the live partial paths P"""
+    newP = set()
+    for p in P:
+        for (k, ret) in branches:
+            if ret:
+                D.add((p + k, True))
+            else:
+                newP.add(p + k)
+    return newP
+
+def paths(text, in_closure=False):
+    """set of (number of push_queue calls, leaves by `return`?) over the control-flow paths of `text`"""
+    P, D = {0}, set()
+    i, n = 0, len(text)
+    while i < n and P:
+        c = text[i]
+        m = WORD.match(text, i) if (c.isalpha() or c == "_") and (i == 0 or not (text[i - 1].isalnum() or text[i - 1] == "_")) else None
+        if m:
+            w = m.group(0)
+            if w == "return":
+                for p in P:
+                    D.add((p, True))
+                P = set()
+                break
+            if w == "push_queue":
+                j = text.index("(", m.end())
+                k = match_close(text, j)
+                inner = paths(text[j + 1:k], in_closure)
+                if inner != {(0, False)}:
+                    raise PathError("push_queue or return inside the argument of push_queue")
+                P = {p + 1 for p in P}
+                i = k + 1
+                continue
+            if w in ("for", "while", "loop"):
+                j = next_brace(text, m.end())
+                k = match_close(text, j)
+                if paths(text[j + 1:k], in_closure) != {(0, False)}:
+                    raise PathError("push_queue or return inside a loop")
+                i = k + 1
+                continue
+            if w == "if":
+                branches, has_else = set(), False
+                j = m.end()
+                while True:
+                    b = next_brace(text, j)
+                    e = match_close(text, b)
+                    if paths(text[j:b], in_closure) != {(0, False)}:
+                        raise PathError("push_queue or return inside an if condition")
+                    branches |= paths(text[b + 1:e], in_closure)
+                    j = e + 1
+                    m2 = re.compile(r"\s*else\b").match(text, j)
+                    if not m2:
+                        break
+                    j = m2.end()
+                    m3 = re.compile(r"\s*if\b").match(text, j)
+                    if m3:
+                        j = m3.end()
+                        continue
+                    b = next_brace(text, j)
+                    e = match_close(text, b)
+                    branches |= paths(text[b + 1:e], in_closure)
+                    has_else = True
+                    j = e + 1
+                    break
+                if not has_else:
+                    branches.add((0, False))
+                P = seq(P, D, branches)
+                i = j
+                continue
+            if w == "match":
+                b = next_brace(text, m.end())
+                e = match_close(text, b)
+                if paths(text[m.end():b], in_closure) != {(0, False)}:
+                    raise PathError("push_queue or return inside a match scrutinee")
+                branches = set()
+                for arm in split_arms(text[b + 1:e]):
+                    branches |= paths(arm, in_closure)
+                if not branches:
+                    raise PathError("match without arms")
+                P = seq(P, D, branches)
+                i = e + 1
+                continue
+            if w == "else":      # let ... else { diverges }
+                b = next_brace(text, m.end())
+                e = match_close(text, b)
+                P = seq(P, D, paths(text[b + 1:e], in_closure) | {(0, False)})
+                i = e + 1
+                continue
+            i = m.end()
+            continue
+        if c == "|" and re.compile(r"\|[^|]*\|\s*\{").match(text, i) and (i == 0 or text[i - 1] in "( ,"):
+            # a closure with a block body: its `return`s are local; it must run exactly once to matter
+            b = text.index("{", i)
+            e = match_close(text, b)
+            inner = {(k, False) for (k, _r) in paths(text[b + 1:e], True)}
+            if inner != {(0, False)}:
+                head = text[max(0, i - 40):i]
+                if not re.search(r"\.with\(\s*$", head):
+                    raise PathError("push_queue inside a closure that is not known to run exactly once")
+            P = seq(P, D, inner)
+            i = e + 1
+            continue
+        if c == "?" and not in_closure:
+            raise PathError("`?` leaves without an answer")
+        i += 1
+    return P_and_D(P, D)
+
+def P_and_D(P, D):
+    return {(p, False) for p in P} | D
+
 
 
 def block_after(src, start_re, what, fails, start=0):
@@ -48,122 +256,149 @@ def block_after(src, start_re, what, fails, start=0):
         fails.append("%s: not found" % what)
         return "", -1
     i = src.find("{", m.end() - 1)
-    depth, j = 0, i
-    while j < len(src):
-        if src[j] == "{":
-            depth += 1
-        elif src[j] == "}":
-            depth -= 1
-            if depth == 0:
-                return src[i:j + 1], j
-        j += 1
-    fails.append("%s: unbalanced" % what)
-    return "", -1
+    try:
+        j = match_close(src, i)
+    except PathError:
+        fails.append("%s: unbalanced" % what)
+        return "", -1
+    return src[i:j + 1], j
 
 
 def top_arms(body):
-    """[(pattern text, arm body text)] of a `match x { ... }` block given with its braces"""
-    arms, depth, i, n = [], 0, 1, len(body) - 1
-    start = 1
+    """[(pattern text, arm body text without braces)] of a `match x { ... }` block given with its braces"""
+    inner = body[1:-1]
+    arms, i, n, start = [], 0, len(inner), 0
     while i < n:
-        ch = body[i]
-        if ch in "({[":
-            depth += 1
-        elif ch in ")}]":
-            depth -= 1
-        elif body.startswith("=>", i) and depth == 0:
-            pat = body[start:i].strip()
+        c = inner[i]
+        if c in "({[":
+            i = match_close(inner, i) + 1
+            continue
+        if inner.startswith("=>", i):
+            pat = inner[start:i].strip()
             j = i + 2
-            while body[j].isspace():
+            while inner[j].isspace():
                 j += 1
-            if body[j] == "{":
-                d, k = 0, j
-                while True:
-                    if body[k] == "{":
-                        d += 1
-                    elif body[k] == "}":
-                        d -= 1
-                        if d == 0:
-                            break
-                    k += 1
-                arms.append((pat, body[j:k + 1]))
+            if inner[j] == "{":
+                k = match_close(inner, j)
+                arms.append((pat, inner[j + 1:k]))
                 i = k + 1
-                while i < n and body[i] in ", \n\t":
-                    i += 1
-                start = i
-                continue
             else:
-                d, k = 0, j
-                while k < n and not (body[k] == "," and d == 0):
-                    if body[k] in "({[":
-                        d += 1
-                    elif body[k] in ")}]":
-                        d -= 1
+                k = j
+                while k < n and inner[k] != ",":
+                    if inner[k] in "({[":
+                        k = match_close(inner, k)
                     k += 1
-                arms.append((pat, body[j:k]))
+                arms.append((pat, inner[j:k]))
                 i = k + 1
-                start = i
-                continue
+            while i < n and inner[i] in ", \n\t":
+                i += 1
+            start = i
+            continue
         i += 1
     return arms
 
 
+def coq_paths(ps):
+    return "[" + "; ".join("(%d, %s)" % (k, "true" if r else "false") for (k, r) in sorted(ps)) + "]"
+
+
 def translate():
     fails = []
-    srv = re.sub(r"//[^\n]*", "", open(os.path.join(vlib.REPO, SERVER)).read())
-    req = re.sub(r"//[^\n]*", "", open(os.path.join(vlib.REPO, REQUEST)).read())
+    srv = strip_strings(open(os.path.join(vlib.REPO, SERVER)).read())
+    req = strip_strings(open(os.path.join(vlib.REPO, REQUEST)).read())
+    st = strip_strings(open(os.path.join(vlib.REPO, "command/src/state.rs")).read())
     proto = open(os.path.join(vlib.REPO, "command/src/command.proto")).read()
-    # every variant of the request oneof
     one, _ = block_after(proto, r"oneof request_type\s*\{", "command.proto request_type", fails)
-    variants = ["".join(w.capitalize() for w in name.split("_")) for name in re.findall(r"\b([a-z_0-9]+)\s*=\s*\d+;", one)]
+    variants = ["".join(w[:1].upper() + w[1:] for w in name.split("_")) for name in re.findall(r"\b([A-Za-z_0-9]+)\s*=\s*\d+;", one)]
     if len(variants) < 40:
         fails.append("command.proto: could not list the RequestType variants")
     names = lambda pat: re.findall(r"RequestType::(\w+)", pat)
 
+    def arm_paths(what, body):
+        try:
+            return paths(body)
+        except (PathError, ValueError) as ex:
+            fails.append("%s: control flow not understood (%s)" % (what, ex))
+            return {(0, False)}
+
+    # read_channel_messages_and_notify: the arms that do not simply call notify
+    rb, _ = block_after(srv, r"fn read_channel_messages_and_notify\(&mut self\) -> bool\s*\{", "read_channel_messages_and_notify", fails)
+    rm, _ = block_after(rb, r"Ok\(request\) => match request\.content\.request_type\s*\{", "read_channel match", fails)
+    s0, seen0 = {}, set()
+    for pat, body in top_arms(rm):
+        vs = names(pat)
+        calls_notify = len(re.findall(r"self\.notify\(request\)", body))
+        for v in vs:
+            seen0.add(v)
+            if v == "HardStop":
+                if not (calls_notify == 1 and re.search(r"self\.notify\(request\);\s*if let Err\(e\) = self\.channel\.write_message\(&WorkerResponse::ok\(req_id\)\)", body)
+                        and re.search(r"return true;\s*$", body.strip())):
+                    fails.append("read_channel: the HardStop arm is no longer notify + one direct Ok + return true")
+            elif v == "SoftStop":
+                if not (calls_notify == 1 and re.search(r"self\.shutting_down = Some\(request\.id\.clone\(\)\);", body)):
+                    fails.append("read_channel: the SoftStop arm no longer records shutting_down and calls notify once")
+            else:
+                if calls_notify:
+                    fails.append("read_channel: arm %s both answers and calls notify" % v)
+                s0[v] = arm_paths("read_channel arm " + v, body)
+        if pat.startswith("_") and body.strip().rstrip(",") != "self.notify(request)":
+            fails.append("read_channel: the default arm is no longer `self.notify(request)`")
+    if seen0 != {"HardStop", "SoftStop", "ReturnListenSockets"}:
+        fails.append("read_channel: special arms changed: %s" % sorted(seen0))
+
     # Server::notify
     nb, _ = block_after(srv, r"fn notify\(&mut self, message: WorkerRequest\)\s*\{", "Server::notify", fails)
-    mb, mend = block_after(nb, r"match &message\.content\.request_type\s*\{", "Server::notify match", fails)
-    wl = {}
+    mb, _ = block_after(nb, r"match &message\.content\.request_type\s*\{", "Server::notify match", fails)
+    s1 = {}
     for pat, body in top_arms(mb):
         for v in names(pat):
-            pushes = len(re.findall(r"push_queue\(", body))
-            ends = bool(re.search(r"return;\s*\}\s*$", body))
-            inner_returns = len(re.findall(r"return;", body))
-            # an arm that does not end in `return` but answers: either every answer is on an
-            # early-return path (conditional answer; the normal path falls through unanswered),
-            # or it answers and falls through (answered twice if anything answers later)
-            if not ends and pushes > 0 and inner_returns >= pushes:
-                pushes = 0
-            wl[v] = (pushes, ends)
+            s1[v] = arm_paths("notify arm " + v, body)
+    pre = nb[:nb.find("match &message.content.request_type")]
+    if "push_queue(" in pre or re.search(r"\breturn;", re.sub(r"\|[^|]*\|\s*\{.*?\}\);", "", pre, flags=re.S)):
+        fails.append("Server::notify answers or returns before its match")
     if not re.search(r"\}\s*self\.notify_proxys\(message\);\s*\}\s*$", nb):
         fails.append("Server::notify no longer ends with self.notify_proxys(message)")
 
-    # Server::notify_proxys: three stages
+    # Server::notify_proxys
     pb, _ = block_after(srv, r"pub fn notify_proxys\(&mut self, request: WorkerRequest\)\s*\{", "Server::notify_proxys", fails)
     if not re.search(r"^\{\s*let applied_to_state = match self\.config_state\.dispatch\(&request\.content\) \{", pb):
         fails.append("notify_proxys no longer starts by applying the request to config_state (view_tracks_master)")
+    if len(re.findall(r"config_state\s*\.dispatch\(", nb + pb)) != 1:
+        fails.append("notify / notify_proxys: config_state.dispatch is no longer called exactly once")
     m1, e1 = block_after(pb, r"match request\.content\.request_type\s*\{", "notify_proxys first match", fails)
-    early = {}
+    s2 = {}
     for pat, body in top_arms(m1):
         for v in names(pat):
-            early[v] = (len(re.findall(r"push_queue\(", body)), bool(re.search(r"return;\s*\}\s*$", body)))
-    stage2 = pb[e1:]
+            s2[v] = arm_paths("notify_proxys first-match arm " + v, body)
+    m3, e3 = block_after(pb, r"match request\.content\.request_type\s*\{", "notify_proxys last match", fails, e1)
+    stage2 = pb[e1:pb.find("match request.content.request_type", e1)]
     agg = re.findall(r"if proxy_destinations\.to_(http|https|tcp|udp)_proxy \{", stage2)
     if agg != ["http", "https", "tcp", "udp"]:
         fails.append("notify_proxys: the four proxy destinations are no longer consulted in order")
     if len(re.findall(r"\.is_failure\(\) \|\| notify_response\.is_none\(\)", stage2)) != 3:
         fails.append("notify_proxys: the first-or-failure aggregation is no longer recognised")
-    if not re.search(r"if let Some\(response\) = notify_response \{\s*push_queue\(response\);\s*\}", stage2):
+    if not re.search(r"if let Some\(response\) = notify_response \{\s*push_queue\(response\);\s*\}", stage2) or len(re.findall(r"push_queue\(", stage2)) != 1:
         fails.append("notify_proxys: the aggregated response is no longer pushed exactly once")
-    m3, _ = block_after(pb, r"match request\.content\.request_type\s*\{", "notify_proxys last match", fails, e1)
-    late, fallback = {}, False
+    s4, fallback = {}, False
     for pat, body in top_arms(m3):
         if pat.startswith("_"):
-            fallback = bool(re.search(r"if !answered_by_a_proxy \{\s*push_queue\(", body))
+            fallback = bool(re.search(r"^\s*if !answered_by_a_proxy \{\s*push_queue\([^;]*\);\s*\}\s*$", body))
+            if not fallback and "push_queue(" in body:
+                fails.append("notify_proxys: the default arm of the last match answers unconditionally")
         for v in names(pat):
-            late[v] = len(re.findall(r"push_queue\(", body))
-    if not re.search(r"let answered_by_a_proxy = notify_response\.is_some\(\);", stage2) and fallback:
+            s4[v] = arm_paths("notify_proxys last-match arm " + v, body)
+    if fallback and not re.search(r"let answered_by_a_proxy = notify_response\.is_some\(\);", stage2):
         fails.append("notify_proxys: answered_by_a_proxy is no longer notify_response.is_some()")
+    tail = pb[e3 + 1:].strip()
+    if tail not in ("; }", ";\n    }", "}") and "push_queue(" in tail:
+        fails.append("notify_proxys answers after its last match")
+    # listener bookkeeping
+    rl = [b for pt, b in top_arms(m3) if "RemoveListener" in pt]
+    if not rl or not re.search(r"if applied_to_state \{.*?self\.base_sessions_count -= 1;\s*\}", rl[0], re.S):
+        fails.append("notify_proxys: RemoveListener no longer lowers base_sessions_count only when the state knew the listener")
+    sd, _ = block_after(srv, r"fn shut_down_sessions\(&mut self\) -> bool\s*\{", "shut_down_sessions", fails)
+    if not re.search(r"if new_sessions_count <= listen_slots \{", sd) or re.search(r"<=\s*self\.base_sessions_count", sd):
+        fails.append("shut_down_sessions: completion is no longer tested against the listen slots counted from the slab")
 
     # get_destinations
     gb, _ = block_after(req, r"pub fn get_destinations\(&self\) -> ProxyDestinations\s*\{", "get_destinations", fails)
@@ -173,28 +408,28 @@ def translate():
         n = len(set(re.findall(r"to_(http|https|tcp|udp)_proxy = true", body)))
         for v in names(pat):
             dests[v] = n
-    # read_channel_messages_and_notify special cases
-    rb, _ = block_after(srv, r"fn read_channel_messages_and_notify\(&mut self\) -> bool\s*\{", "read_channel_messages_and_notify", fails)
-    special = {}
-    for v, pat in (("ReturnListenSockets", r"Some\(RequestType::ReturnListenSockets\(_\)\) => \{(.*?)\n                    \}\n"),):
-        m = re.search(pat, rb, re.S)
-        if not m or len(re.findall(r"push_queue\(", m.group(1))) != 2 or "self.notify(" in m.group(1):
-            fails.append("read_channel_messages_and_notify: the ReturnListenSockets arm no longer answers once (Ok | Err) without notify")
-        special[v] = 1
+    # ConfigState::dispatch: the variants it accepts without touching the state
+    db, _ = block_after(st, r"pub fn dispatch\(&mut self, request: &Request\) -> Result<\(\), StateError>\s*\{", "ConfigState::dispatch", fails)
+    dm, _ = block_after(db, r"match request_type\s*\{", "ConfigState::dispatch match", fails)
+    noop = []
+    for pat, body in top_arms(dm):
+        if body.strip().rstrip(",") == "Ok(())":
+            noop += names(pat)
     rows = []
     for v in variants:
-        wp, wr = wl.get(v, (0, False))
-        ep, er = early.get(v, (0, False))
-        rows.append('  mkArm "%s" %s %s %s %s %d %d %s' % (
-            v, "true" if wp > 0 else "false", "false" if wr else "true",
-            "true" if (ep > 0 and er) else "false", "false" if er else "true",
-            dests.get(v, 0), late.get(v, 0), "true" if v in special else "false"))
+        rows.append('  mkRow "%s" %s %s %s %d %s' % (
+            v, ("(Some %s)" % coq_paths(s0[v])) if v in s0 else "None",
+            coq_paths(s1.get(v, {(0, False)})), coq_paths(s2.get(v, {(0, False)})),
+            dests.get(v, 0), ("(Some %s)" % coq_paths(s4[v])) if v in s4 else "None"))
         if v not in dests:
             fails.append("get_destinations has no arm for %s" % v)
-    text = ("(* GENERATED by props/c08.py:translate from %s and %s — do not edit *)\n"
+    text = ("(* GENERATED by props/c08.py:translate from %s, %s and command/src/state.rs — do not edit *)\n"
             "From Coq Require Import List String Bool Arith.\nFrom SV Require Import C08.Base.\nImport ListNotations.\nOpen Scope string_scope.\n\n"
-            "Definition fallback_answers : bool := %s.\n\nDefinition arms_table : list arm_row := [\n%s\n].\n"
-            % (SERVER, REQUEST, "true" if fallback else "false", ";\n".join(rows)))
+            "Definition fallback_answers : bool := %s.\n\n"
+            "(* variants ConfigState::dispatch accepts without touching the state *)\n"
+            "Definition state_noop : list string := [%s].\n\n"
+            "Definition arms_table : list arm_row := [\n%s\n].\n"
+            % (SERVER, REQUEST, "true" if fallback else "false", "; ".join('"%s"' % v for v in noop), ";\n".join(rows)))
     vlib.write_if_changed(os.path.join(vlib.COQ, "C08", "Gen.v"), text)
     return fails
 
@@ -232,9 +467,6 @@ def gen_case(rng, cid, i):
             ops.append(["send", v, k])          # duplicate
     ops.append(["view"])
     r = rng.random()
-    # open finding: after any RemoveListener a soft stop never completes (corpus/C08/remove_listener_soft_stop.case)
-    if any(op[0] == "send" and op[1] == "RemoveListener" for op in ops) and r < 0.3:
-        r = 0.4
     if r < 0.3:
         ops.append(["stop", "soft"])
     elif r < 0.6:
